@@ -1,17 +1,323 @@
 /-
   Property C10 — garbage collector: reclaimers run exactly once, never early, before stop returns.
-  Property theorems only; helper lemmas in Babylon/GC/Lemmas*.lean.
+  Property theorems only; the model is Babylon/GC/Model.lean, helper lemmas and the inductive
+  invariants are in Babylon/GC/Lemmas*.lean.
+
+  `Reach c s`: `s` is reachable from the initial state by **any** interleaving of the actions of
+  any number of retiring clients, region slots, the stopping thread and the collector thread, for
+  queue capacity `c.cap` — all schedules, histories, capacities, batch boundaries.
+
+  Epoch specification assumed (model header; proved for the real `Epoch` under C09:
+  `epoch_safety_sc`, `epoch_safety_view`, `epoch_new_slot_safe`, `epoch_released_never_holds`,
+  `epoch_stale_gver_conservative`): a `low_water_mark()` call returns some `m` with
+  `m ≤ p` for every slot pinned with epoch `p` from before the call's begin until after its end, and
+  `m ≥` the smallest epoch pinned at some moment of the call.
+  Queue specification assumed (C01 `bq_exactly_once`, `bq_fifo`, `bq_exclusive`; C02): tickets by
+  `fetch_add`; a ticket is published once the slot of the previous round was released; the batch pop
+  takes a prefix of published tickets and, if the head was already published when it began, at least one.
 -/
-import Babylon.GC.Model
+import Babylon.GC.LemmasAll
 
 namespace Babylon.Properties.C10
 open Babylon.GC Babylon.Core
 
-/-- Generated obligation pinning the shape of the collector loop (the repair of DESIGN §7 #2): the loop
-goes on while the marker has not been seen **or** consumed tasks are still waiting, and a new batch
-is consumed only while running and when the previous one is exhausted. -/
+/-! ### generated obligations: the source still has the shape the model was written against -/
+
+/-- The collector loop (the repair of DESIGN §7 #2): it goes on while the marker has not been seen
+**or** consumed tasks are still waiting; a new batch is consumed only while running and when the
+previous one is exhausted; the block's statements and the reclaim call are the modelled ones. -/
 theorem gen_loop_shape :
     Gen.GC.loopCond = Shape.loopCond ∧ Gen.GC.consumeCond = Shape.consumeCond ∧
     Gen.GC.consumeBlock = Shape.consumeBlock ∧ Gen.GC.reclaimCall = Shape.reclaimCall := by decide
+
+/-- consume: the marker is `lowest_epoch == UINT64_MAX` (= a default-constructed task, which is what
+`stop()` pushes), at the marker `running=false; break;`, otherwise the task is appended. -/
+theorem gen_marker_shape :
+    Gen.GC.markerEpoch = 2 ^ 64 - 1 ∧ Gen.GC.defaultEpoch = Gen.GC.markerEpoch ∧
+    Gen.GC.markerAction = Shape.markerAction ∧ Gen.GC.absorbAction = Shape.absorbAction ∧
+    Gen.GC.consumeRunningInit = true := by decide
+
+/-- reclaim_start_from: stop at the first task with `lowest_epoch > low_water_mark` (so `≤` reclaims),
+the low water mark is read once before the walk. -/
+theorem gen_reclaim_shape :
+    Gen.GC.notYetCond = Shape.notYetCond ∧ Gen.GC.notYetAction = Shape.notYetAction ∧
+    Gen.GC.skel_reclaim_start_from = [.call "low_water_mark", .call "t.reclaimer"] := by decide
+
+/-- constants of the loop and the queue flavours used (`push<true,false,false>` = concurrent, spinning,
+no futex wake; `try_pop_n<false,false>` = single consumer, no futex wake). -/
+theorem gen_constants :
+    Gen.GC.batchMax = 1024 ∧ Gen.GC.sleepBelow = 100 ∧ Gen.GC.backoffInit = 1000 ∧ Gen.GC.backoffIncr = 10 ∧
+    Gen.GC.backoffMax = 100000 ∧ Gen.GC.backoffShift = 1 ∧
+    Gen.GC.retirePushFlags = [true, false, false] ∧ Gen.GC.stopPushFlags = [true, false, false] ∧
+    Gen.GC.popFlags = [false, false] := by decide
+
+/-- call skeletons of keep_reclaim / consume / stop / retire -/
+theorem gen_skeletons :
+    Gen.GC.skel_keep_reclaim = [.call "clear", .call "consume_reclaim_task", .call "reclaim_start_from", .call "usleep"] ∧
+    Gen.GC.skel_consume = [.call "try_pop_n", .call "emplace_back"] ∧
+    Gen.GC.skel_stop = [.call "joinable", .call "push", .call "join"] ∧
+    Gen.GC.skel_retire = [.call "retire", .call "tick", .call "push"] := by decide
+
+/-- the call sites of the two lower layers the specification is stated over: `tick` is one SC
+`fetch_add(1)` returning old + 1; `lock` reads the global version then stores it in the slot then
+fences; `unlock` stores the idle value `UINT64_MAX`; the scan loads the slots with acquire; a push
+takes its ticket with a `fetch_add` on the push index. -/
+theorem gen_lower_layers :
+    Gen.GC.skel_epoch_tick = [.rmw "fetch_add" "_version" .sc] ∧ Gen.GC.tickAdds = 1 ∧ Gen.GC.tickReturnsOldPlus = 1 ∧
+    Gen.GC.skel_epoch_lock = [.load "_version" .rlx, .store "slot.version" .rlx, .fence .sc] ∧
+    Gen.GC.skel_epoch_unlock = [.store "slot.version" .rel] ∧ Gen.GC.slotIdle = 2 ^ 64 - 1 ∧
+    Gen.GC.skel_epoch_lwm = [.call "snapshot", .call "accessor_number", .call "for_each", .load "version" .acq] ∧
+    Gen.GC.skel_queue_push.head? = some (.rmw "fetch_add" "_next_push_index" .rlx) := by decide
+
+/-! ### exactly once -/
+
+/-- **At most once**: in every reachable state the invocation log holds no reclaimer twice. -/
+theorem gc_at_most_once (c : Cfg) (s : State) (h : Reach c s) : s.invoked.Nodup :=
+  invoked_nodup h
+
+/-! ### never early -/
+
+/-- **Never early**: whenever the collector invokes reclaimer `id`, it is the task at `tasks[index]`,
+its epoch `e` is at most the low water mark `m` read in this pass, and no slot is pinned that was
+pinned before the tick that produced `e` (every such slot has `since ≥ e`, while a slot pinned
+before that tick has `since < e`: `gc_open_at_retirement_has_older_pin`).  Hence every critical
+region that was open when the reclaimer was retired has been closed. -/
+theorem gc_never_early (c : Cfg) (s s' : State) (id : Nat) (h : Reach c s)
+    (hs : step c s (.reclaim id) = some s') :
+    ∃ t m cnt, s.cpc = .reclaim m cnt ∧ s.tasks[s.index]? = some t ∧ t.id = id ∧ leLwm t.e m = true ∧
+      ∀ i p since, s.slots i = .pinned p since → t.e ≤ since := by
+  have he := (reach_inv h).e
+  simp only [step, stepWith] at hs
+  split at hs <;> try contradiction
+  rename_i m cnt hpc
+  split at hs <;> try contradiction
+  rename_i t hnext
+  split at hs <;> try contradiction
+  rename_i hid
+  simp only [nextReclaimable] at hnext
+  split at hnext <;> try contradiction
+  rename_i t' hget
+  split at hnext <;> try contradiction
+  rename_i hle
+  injection hnext with hnext; subst hnext
+  refine ⟨t', m, cnt, hpc, hget, hid, hle, ?_⟩
+  intro i p a hi
+  refine he.recI m cnt hpc i p a hi t' ?_ hle
+  have hlt : s.index < s.tasks.length := by
+    rcases Nat.lt_or_ge s.index s.tasks.length with h | h
+    · exact h
+    · rw [List.getElem?_eq_none h] at hget; cases hget
+  rw [List.drop_eq_getElem_cons hlt]
+  rw [List.getElem?_eq_getElem hlt] at hget
+  injection hget with hget
+  rw [hget]; exact List.mem_cons_self
+
+/-- every entry of the invocation log was reclaimable: epoch ≤ the low water mark read in its pass -/
+theorem gc_never_early_log (c : Cfg) (s : State) (h : Reach c s) :
+    ∀ x ∈ s.log, leLwm x.e x.m = true := (reach_inv h).e.logOk
+
+/-- reading of the ghost `since`: a slot that is pinned when `retire` ticks was pinned at a global
+version strictly below the epoch the tick returns (and the pin itself is untouched by the tick). -/
+theorem gc_open_at_retirement_has_older_pin (c : Cfg) (s s' : State) (id i p since : Nat) (h : Reach c s)
+    (hs : step c s (.tick id) = some s') (hp : s.slots i = .pinned p since) :
+    ∃ e, s'.calls id = .reserve e ∧ since < e ∧ s'.slots i = .pinned p since := by
+  have he := (reach_inv h).e
+  simp only [step, stepWith] at hs
+  split at hs <;> try contradiction
+  injection hs with hs; subst hs
+  refine ⟨s.gver + Gen.GC.tickReturnsOldPlus, by simp, ?_, hp⟩
+  have := (he.pinLe i p since hp).2
+  have h1 : Gen.GC.tickReturnsOldPlus = 1 := rfl
+  omega
+
+/-- the same for a client that ticks on its own and later passes the value to `retire(r, e)` -/
+theorem gc_open_at_client_tick_has_older_pin (c : Cfg) (s s' : State) (i p since : Nat) (h : Reach c s)
+    (hs : step c s .clientTick = some s') (hp : s.slots i = .pinned p since) :
+    since < s'.gver ∧ s'.slots i = .pinned p since := by
+  have he := (reach_inv h).e
+  simp only [step, stepWith] at hs
+  injection hs with hs; subst hs
+  have := (he.pinLe i p since hp).2
+  have h1 : Gen.GC.tickAdds = 1 := rfl
+  exact ⟨by dsimp only; omega, hp⟩
+
+/-! ### retire blocks while the queue is full and loses nothing -/
+
+/-- **Conservation**: the ids of all tasks that ever obtained a queue ticket are, as a multiset,
+exactly: invoked ++ waiting in `tasks[index..]` ++ skipped behind a stop marker ++ still queued;
+no id occurs twice; an id is there iff its `retire` call has taken its ticket.  **Blocking**: a
+retire call holding ticket `k` can publish iff `k < popIdx + capacity` (it waits while the queue is
+full and is enabled again as soon as the collector has popped far enough); published cells never
+exceed the capacity.  Nothing is skipped unless a stop marker has been popped, and a task whose
+ticket precedes every marker ticket is never skipped. -/
+theorem gc_retire_blocks_not_drops (c : Cfg) (s : State) (h : Reach c s) :
+    s.places.Perm (taskIds s.allItems) ∧ s.places.Nodup ∧
+    (∀ id, id ∈ s.places ↔ (s.calls id).ticketed = true) ∧
+    (∀ id e k, s.calls id = .publish e k → ((step c s (.publish id)).isSome ↔ k < s.popIdx + c.cap)) ∧
+    (∀ i x, s.cells[i]? = some (x, true) → i < c.cap) ∧
+    (Item.marker ∉ s.popped → s.dropped = []) ∧
+    (∀ id e k, (s.calls id = .publish e k ∨ s.calls id = .done e k) →
+      (∀ km : Nat, s.allItems[km]? = some Item.marker → k < km) → id ∉ s.dropped.map (·.id)) := by
+  have hi := reach_inv h
+  have hperm := places_perm h
+  have hnd : s.places.Nodup := hperm.nodup_iff.mpr hi.cns.nodup
+  refine ⟨hperm, hnd, ?_, ?_, hi.q.room, ?_, ?_⟩
+  · intro id; rw [hperm.mem_iff]; exact hi.cns.has id
+  · intro id e k hk
+    have ⟨h1, _⟩ := hi.q.pub id e k hk
+    simp only [step, stepWith, hk]
+    constructor
+    · intro hsome
+      split at hsome
+      · rename_i hg; exact hg.2
+      · cases hsome
+    · intro hlt
+      rw [if_pos ⟨h1, hlt⟩]; rfl
+  · intro hn; exact (hi.k.runEq (hi.k.run.mpr hn)).2
+  · intro id e k hcall hbefore hmem
+    -- the task is in the queue or among the consumed ones; `places` has no duplicates
+    have hk := hi.q.tick id e k hcall
+    rcases Nat.lt_or_ge k s.popped.length with hlt | hge
+    · -- popped: then it sits in front of the first marker, hence consumed
+      have hkp : s.popped[k]? = some (Item.task ⟨id, e⟩) := by
+        simp only [State.allItems] at hk; rwa [List.getElem?_append_left hlt] at hk
+      have hcm : (⟨id, e⟩ : Task) ∈ s.consumed := by
+        by_cases hm : Item.marker ∈ s.popped
+        · have hj := getElem?_firstMarker hm
+          have hjlt : (s.popped.takeWhile notMarker).length < s.popped.length := by
+            rcases Nat.lt_or_ge (s.popped.takeWhile notMarker).length s.popped.length with hl | hl
+            · exact hl
+            · rw [List.getElem?_eq_none hl] at hj; cases hj
+          have hkj : k < (s.popped.takeWhile notMarker).length := by
+            apply hbefore
+            simp only [State.allItems]
+            rw [List.getElem?_append_left hjlt]; exact hj
+          have : Item.task ⟨id, e⟩ ∈ s.popped.takeWhile notMarker := by
+            apply List.mem_of_getElem? (i := k)
+            rw [getElem?_takeWhile_notMarker hkj]; exact hkp
+          exact hi.k.pre.subset (mem_tasksOf.mpr this)
+        · rw [(hi.k.runEq (hi.k.run.mpr hm)).1]
+          exact mem_tasksOf.mpr (List.mem_of_getElem? hkp)
+      rw [← hi.k.split] at hcm
+      have hin : id ∈ s.invoked ++ (s.tasks.drop s.index).map (·.id) := by
+        rw [List.mem_append] at hcm ⊢
+        rcases hcm with hc | hc
+        · left
+          rw [List.mem_map] at hc
+          obtain ⟨x, hx, hxe⟩ := hc
+          simp only [State.invoked, List.mem_map]
+          exact ⟨x, hx, by have : x.task.id = id := by rw [hxe]
+                           simpa [Inv.task] using this⟩
+        · right; exact List.mem_map.mpr ⟨_, hc, rfl⟩
+      unfold State.places at hnd
+      rw [List.append_assoc, List.nodup_append] at hnd
+      have := hnd.2.2 id hin id (List.mem_append_left _ hmem)
+      exact this rfl
+    · -- still queued
+      have hkc : (s.cells.map (·.1))[k - s.popped.length]? = some (Item.task ⟨id, e⟩) := by
+        simp only [State.allItems] at hk; rwa [List.getElem?_append_right hge] at hk
+      have hin : id ∈ taskIds (s.cells.map (·.1)) := by
+        simp only [taskIds, List.mem_map]
+        exact ⟨⟨id, e⟩, mem_tasksOf.mpr (List.mem_of_getElem? hkc), rfl⟩
+      unfold State.places at hnd
+      rw [List.nodup_append] at hnd
+      have hleft : id ∈ s.invoked ++ (s.tasks.drop s.index).map (·.id) ++ s.dropped.map (·.id) :=
+        List.mem_append_right _ hmem
+      exact hnd.2.2 id hleft id hin rfl
+
+/-! ### all before stop returns -/
+
+/-- ticket form: when `stop()` has returned, every reclaimer whose queue ticket precedes the stop
+marker's ticket has been invoked (no fairness needed: this is about the moment `stop()` returns). -/
+theorem gc_all_before_marker (c : Cfg) (s : State) (h : Reach c s) (hret : s.stop = .returned)
+    (id e k : Nat) (hcall : s.calls id = .publish e k ∨ s.calls id = .done e k)
+    (hbefore : ∀ km : Nat, s.allItems[km]? = some Item.marker → k < km) : id ∈ s.invoked :=
+  all_before_marker h hret hcall hbefore
+
+/-- **All before stop**: when `stop()` has returned, every reclaimer whose `retire` had obtained its
+ticket before `stop()` was called — in particular every reclaimer whose `retire` had returned
+(`gc_retired_before_stop_has_early_ticket`) — has been invoked. -/
+theorem gc_all_before_stop (c : Cfg) (s : State) (h : Reach c s) (hret : s.stop = .returned)
+    (id e k p : Nat) (hcall : s.calls id = .done e k) (hp : s.pushAtStop = some p) (hk : k < p) :
+    id ∈ s.invoked := by
+  apply all_before_marker h hret (Or.inr hcall)
+  intro km hkm
+  obtain ⟨p', hp', hle⟩ := (reach_inv h).st.mark km hkm
+  rw [hp] at hp'; injection hp' with hp'; omega
+
+/-- a `retire` that has its ticket (a fortiori one that has returned) when `stop()` is called has a
+ticket below the push index recorded at that call -/
+theorem gc_retired_before_stop_has_early_ticket (c : Cfg) (s s' : State) (h : Reach c s)
+    (hs : step c s .callStop = some s') (id e k : Nat)
+    (hcall : s.calls id = .publish e k ∨ s.calls id = .done e k) :
+    ∃ p, s'.pushAtStop = some p ∧ k < p ∧ s'.calls id = s.calls id := by
+  have hq := (reach_inv h).q
+  have hk := hq.tick id e k hcall
+  have hlen := allItems_length hq
+  have hlt : k < s.allItems.length := by
+    rcases Nat.lt_or_ge k s.allItems.length with h | h
+    · exact h
+    · rw [List.getElem?_eq_none h] at hk; cases hk
+  simp only [step, stepWith] at hs
+  split at hs <;> try contradiction
+  injection hs with hs; subst hs
+  exact ⟨s.pushIdx, rfl, by omega, rfl⟩
+
+/-! ### the collector-loop invariant -/
+
+/-- **Collector loop**: `index ≤ tasks.size()`; the reclaimed tasks followed by `tasks[index..]` are
+exactly the tasks consumed so far, in consumption order; consumption order is ticket (FIFO) order;
+everything popped in front of the first stop marker has been consumed — all of it while no marker
+has been popped; and what has been popped is the first `popIdx` tickets. -/
+theorem gc_collector_loop_invariant (c : Cfg) (s : State) (h : Reach c s) :
+    s.index ≤ s.tasks.length ∧
+    s.log.map Inv.task ++ s.tasks.drop s.index = s.consumed ∧
+    s.consumed.Sublist (tasksOf s.popped) ∧
+    tasksOf (s.popped.takeWhile notMarker) <+: s.consumed ∧
+    (Item.marker ∉ s.popped → s.consumed = tasksOf s.popped) ∧
+    s.popped = s.allItems.take s.popIdx := by
+  have hi := reach_inv h
+  refine ⟨hi.k.idx, hi.k.split, hi.k.sub, hi.k.pre, fun hn => (hi.k.runEq (hi.k.run.mpr hn)).1, ?_⟩
+  simp [State.allItems, ← hi.q.popLen]
+
+/-- once the collector thread has finished, nothing it consumed is left un-reclaimed and the marker
+has been seen; `stop()` returns only after that -/
+theorem gc_collector_done (c : Cfg) (s : State) (h : Reach c s) :
+    (s.cpc = .done → s.running = false ∧ s.tasks.drop s.index = []) ∧ (s.stop = .returned → s.cpc = .done) :=
+  ⟨(reach_inv h).k.fin, (reach_inv h).k.ret⟩
+
+/-! ### non-vacuity and the pre-repair loop -/
+
+/-- the schedule of DESIGN §7 #2: a region is open (slot 0 pinned at version 0), one retire,
+`stop()`; the collector consumes the task and the marker in one batch while the region is open -/
+def openRegionRetireStop : List Lbl :=
+  [.newSlot, .enterRead 0, .enterPin 0,
+   .callRetire 7, .tick 7, .reserve 7, .publish 7,
+   .callStop, .stopReserve, .stopPublish,
+   .consumeBegin, .pop 2, .scanBegin, .scanEnd (some 0), .passEnd]
+
+/-- On the repaired loop the collector keeps polling after that schedule; once the region closes the
+task is reclaimed and only then the collector exits and `stop()` returns: the hypotheses of
+`gc_all_before_stop` / `gc_never_early` are satisfiable and the conclusions are not vacuous. -/
+example :
+    ((runL step ⟨2⟩ State.init (openRegionRetireStop ++
+        [.scanBegin, .scanEnd (some 0), .passEnd, .leave 0,
+         .scanBegin, .scanEnd none, .reclaim 7, .passEnd, .exit, .stopJoin])).map
+      (fun s => (s.invoked, decide (s.stop = .returned), s.pushAtStop))) = some ([7], true, some 1) := by decide
+
+/-- … and it cannot exit or reclaim while the region is open -/
+example :
+    ((runL step ⟨2⟩ State.init (openRegionRetireStop ++ [.exit])).isNone ∧
+     (runL step ⟨2⟩ State.init (openRegionRetireStop ++ [.scanBegin, .scanEnd (some 1)])).isNone ∧
+     (runL step ⟨2⟩ State.init (openRegionRetireStop ++ [.scanBegin, .scanEnd (some 0), .reclaim 7])).isNone) := by decide
+
+/-- **The loop before the repair** (`while (running)`, kept as the sanity mutation): on the same
+schedule the collector exits right after the batch that contained the marker, `stop()` returns, and
+reclaimer 7 — retired before `stop()` was called — has not been invoked: `gc_all_before_stop` is
+false for that loop.  (Replayed on the real code by corpus/C10/open_region_retire_stop.txt.) -/
+theorem gc_stop_drops_counterexample_old_loop :
+    ∃ s, runL stepOld ⟨2⟩ State.init (openRegionRetireStop ++ [.exit, .stopJoin]) = some s ∧
+      s.stop = .returned ∧ s.calls 7 = .done 1 0 ∧ s.pushAtStop = some 1 ∧ 7 ∉ s.invoked := by
+  refine ⟨_, rfl, ?_, ?_, ?_, ?_⟩ <;> decide
 
 end Babylon.Properties.C10
